@@ -34,17 +34,12 @@ func (valenc *structEncoder) Encode(enc *Encoder, v interface{}) {
 }
 
 func (valenc *structEncoder) Write(enc *Encoder, v interface{}) {
-	if enc.depth >= maxDepth {
-		// fields are written by their own handlers, not through writeValue: a chain of
-		// struct pointers (a cycle, in simple mode) is bounded here
-		if enc.Error == nil {
-			enc.Error = ErrNestedTooDeep
-		}
-		enc.WriteNil()
+	// fields are written by their own handlers, not through writeValue: a chain of struct
+	// pointers (a cycle, in simple mode) is bounded here
+	if !enc.enter(v) {
 		return
 	}
-	enc.depth++
-	defer func() { enc.depth-- }()
+	defer enc.leave(v)
 	// the encoder is published before its fields are computed (recursive types need
 	// that); wait until the goroutine that is building it has finished.
 	valenc.RLock()
@@ -156,17 +151,12 @@ func (valenc *anonymousStructEncoder) Encode(enc *Encoder, v interface{}) {
 }
 
 func (valenc *anonymousStructEncoder) Write(enc *Encoder, v interface{}) {
-	if enc.depth >= maxDepth {
-		// fields are written by their own handlers, not through writeValue: a chain of
-		// struct pointers (a cycle, in simple mode) is bounded here
-		if enc.Error == nil {
-			enc.Error = ErrNestedTooDeep
-		}
-		enc.WriteNil()
+	// fields are written by their own handlers, not through writeValue: a chain of struct
+	// pointers (a cycle, in simple mode) is bounded here
+	if !enc.enter(v) {
 		return
 	}
-	enc.depth++
-	defer func() { enc.depth-- }()
+	defer enc.leave(v)
 	enc.SetReference(v)
 	fields := valenc.fields
 	n := len(fields)
